@@ -32,18 +32,22 @@ def ws (c : Char) : Bool :=
 
 def allWs (l : List Char) : Bool := l.all ws
 
+/-- the next character (or the end of the text) ends a token -/
+def startsWs : List Char → Bool
+  | [] => true
+  | d :: _ => ws d
+
+def consTok (c : Char) : List Token → List Token
+  | [] => [[c]]
+  | t :: ts => (c :: t) :: ts
+
 /-- `s.split()` -/
 def split : List Char → List Token
   | [] => []
   | c :: cs =>
     if ws c then split cs
-    else match cs with
-      | [] => [[c]]
-      | d :: _ =>
-        if ws d then [c] :: split cs
-        else match split cs with
-          | [] => [[c]]
-          | t :: ts => (c :: t) :: ts
+    else if startsWs cs then [c] :: split cs
+    else consTok c (split cs)
 
 /-- `s.split('!')[0]` -/
 def stripComment (l : Line) : Line := l.takeWhile (· != '!')
